@@ -63,3 +63,16 @@ Definition is_mark_of (tid : nat) (e : event) : bool :=
   match e with EvMark t _ _ => Nat.eqb t tid | _ => false end.
 
 Definition marks_by (tid : nat) (l : list event) : list event := filter (is_mark_of tid) l.
+
+(* the decisions of an interleaved log, as a decision log (time, verdict), oldest first *)
+Fixpoint decisions_of (l : list event) : list (Z * verdict) :=
+  match l with
+  | [] => []
+  | EvDecide _ t _ v :: l' => (t, v) :: decisions_of l'
+  | _ :: l' => decisions_of l'
+  end.
+
+(* read off an observation *)
+Definition was_rejected (o : obs) : bool := match o_verdict o with Some VReject => true | _ => false end.
+Definition was_admitted (o : obs) : bool :=
+  match o_verdict o with Some v => negb (rejected v) | None => false end.
